@@ -290,7 +290,11 @@ func (w *walker) walk(v reflect.Value) string {
 		fs := hproseFields(t, nil, nil)
 		var sb strings.Builder
 		if t.Name() != "" {
-			sb.WriteString("(struct " + hx([]byte(t.Name())) + " (fields")
+			cname := t.Name()
+			if al, ok := aliases[t]; ok {
+				cname = al
+			}
+			sb.WriteString("(struct " + hx([]byte(cname)) + " (fields")
 		} else {
 			sb.WriteString("(anon (fields")
 		}
